@@ -131,26 +131,54 @@ theorem framing_facts : nonceSize = 24 ∧ symAEAD.overhead = Gen.C41.overhead :
 /-! ## Monitor accepts the model (partial) -/
 
 def Result.toImpl (r : Result) (pt : Bytes) : ImplObs :=
-  ⟨r.agree, r.ref, r.ctLen, r.dec == some pt, r.wrong, r.mods, r.matchC, r.matchA⟩
+  ⟨r.agree, r.ref, r.ctLen, r.dec == some pt, r.wrong, r.mods, r.matchC, r.matchA,
+   r.back == some pt, r.matchBC, r.matchCA⟩
 
-/-- `holds_model_partial`: for every group order, scalars, plaintext and 24-byte nonce the monitor
-    accepts the model's run of the unmodified channel in every clause except the outsider's
-    (`wrong`) verdict and the per-modification verdicts.  Gap: those two clauses depend on the
-    symbolic instance's digests separating the modified boxes, which is not proved in general
-    (it is what A-aead assumes of the real box); they are exercised by the differential run. -/
+/-- framing: decrypting an honest encryption with any key opens the sealed box with that key -/
+theorem decrypt_encrypt_other (k k' : K) (nonce m : Bytes) (hn : nonce.length = nonceSize) :
+    decrypt A k' (encrypt A k nonce m) = A.openBox k' nonce (A.sealBox k nonce m) := by
+  unfold decrypt encrypt
+  have h1 : ¬ (nonce ++ A.sealBox k nonce m).length < nonceSize := by
+    rw [List.length_append, hn]; omega
+  rw [if_neg h1, ← hn, List.take_left, List.drop_left]
+
+/-- the symbolic box is key-separated: the tag's first cell is the key -/
+theorem sym_wrong_key (k k' : Nat) (n m : Bytes) (h : k' ≠ k) :
+    symAEAD.openBox k' n (symAEAD.sealBox k n m) = none := by
+  show symUnseal k' n (symSeal k n m) = none
+  unfold symUnseal
+  split
+  · rename_i hc
+    exfalso
+    have := congrArg List.head? hc
+    simp [symSeal, symTag] at this
+    exact h this.symm
+  · rfl
+
+/-- `holds_model_partial`: for every group order, scalars, plaintext and 24-byte nonce the monitor's
+    clauses are met by the model's run — key agreement, reference key, both decrypt directions,
+    ciphertext length, all four key-matching answers **and the outsider's verdict** (accepted iff
+    the shared x-coordinates coincide).  Gap: only the per-modification verdicts (a changed
+    ciphertext is rejected by the symbolic instance) are not proved in general — that needs the
+    digests to separate every single-cell change, which is what A-aead assumes of the real box;
+    those verdicts are exercised by the differential run (every byte of short ciphertexts). -/
 theorem holds_model_partial (N : Nat) (cs : Case) (hn : cs.nonce.length = nonceSize) :
     let r := runCase (zmodGroup N) (K := Nat) id symAEAD cs []
-    r.agree = true ∧ r.ref = true ∧ r.dec = some cs.pt ∧
+    r.agree = true ∧ r.ref = true ∧ r.dec = some cs.pt ∧ r.back = some cs.pt ∧
     r.ctLen = cs.pt.length + nonceSize + 16 ∧
-    r.matchC = decide (cs.c % N = cs.a % N) ∧ r.matchA = true := by
+    r.matchC = decide (cs.c % N = cs.a % N) ∧ r.matchA = true ∧
+    r.matchBC = decide (cs.c % N = cs.b % N) ∧ r.matchCA = decide (cs.a % N = cs.c % N) ∧
+    r.wrong = (if sharedX N cs.c cs.a = sharedX N cs.b cs.a then 'o' else 'r') := by
   intro r
   have hsym := ecdh_symmetric (zmodGroup N) (K := Nat) id cs.a cs.b
   have hprod := ecdh_eq_product (zmodGroup N) (K := Nat) id cs.a cs.b
-  refine ⟨?_, ?_, ?_, ?_, ?_, ?_⟩
+  refine ⟨?_, ?_, ?_, ?_, ?_, ?_, ?_, ?_, ?_, ?_⟩
   · show decide (_ = _) = true
     rw [hsym]; simp
   · show decide (_ = _) = true
     rw [hprod]; simp
+  · show decrypt symAEAD _ (encrypt symAEAD _ cs.nonce cs.pt) = some cs.pt
+    rw [hsym]; exact decrypt_encrypt symAEAD _ _ _ hn
   · show decrypt symAEAD _ (encrypt symAEAD _ cs.nonce cs.pt) = some cs.pt
     rw [hsym]; exact decrypt_encrypt symAEAD _ _ _ hn
   · show (encrypt symAEAD _ cs.nonce cs.pt).length = _
@@ -161,6 +189,20 @@ theorem holds_model_partial (N : Nat) (cs : Case) (hn : cs.nonce.length = nonceS
   · show isKeyMatching (zmodGroup N) (pubOf (zmodGroup N) cs.a) cs.c = _
     rw [Bool.eq_iff_iff, key_matching_mod]; simp
   · exact key_matching_self (zmodGroup N) cs.a
+  · show isKeyMatching (zmodGroup N) (pubOf (zmodGroup N) cs.b) cs.c = _
+    rw [Bool.eq_iff_iff, key_matching_mod]; simp
+  · show isKeyMatching (zmodGroup N) (pubOf (zmodGroup N) cs.c) cs.a = _
+    rw [Bool.eq_iff_iff, key_matching_mod]; simp
+  · show verdictChar cs.pt (decrypt symAEAD (sharedX N cs.c cs.a)
+        (encrypt symAEAD (ecdh (zmodGroup N) id cs.a (pubOf (zmodGroup N) cs.b)) cs.nonce cs.pt)) = _
+    rw [hsym]
+    show verdictChar cs.pt (decrypt symAEAD (sharedX N cs.c cs.a)
+        (encrypt symAEAD (sharedX N cs.b cs.a) cs.nonce cs.pt)) = _
+    by_cases hx : sharedX N cs.c cs.a = sharedX N cs.b cs.a
+    · rw [hx, decrypt_encrypt symAEAD _ _ _ hn, if_pos rfl]
+      simp [verdictChar]
+    · rw [decrypt_encrypt_other symAEAD _ _ _ _ hn, sym_wrong_key _ _ _ _ hx, if_neg hx]
+      rfl
 
 /-! Non-vacuity on a small group (order 11) with the symbolic box. -/
 example : (runCase (zmodGroup 11) (K := Nat) id symAEAD ⟨3, 5, 6, [7, 8], List.replicate 24 1⟩
